@@ -247,6 +247,8 @@ def _render(sd, ind):
         if sd.get("short") and len(names) == 1:
             return [tag + " " + json.dumps(names[0])]
         return [tag + " [" + ", ".join(json.dumps(n) for n in names) + "]"]
+    if k == "fstr" and sd["ref"] and sd["v"][1].startswith("f'") and sd["v"][1].endswith("'"):
+        return [tag + " " + json.dumps(sd["v"][1][2:-1])]      # the node's text is f'<body>': `!fstr "<body>"` writes the body
     if k in ("eval", "fstr", "import"):
         return [tag + " " + json.dumps(atom_py(sd["v"]))]
     if k == "rec":
